@@ -275,3 +275,60 @@ def rule_strip_contract(ctx, prop):
                               f"{path} returns, on some path, the result of {via} without replacing its {side} trivia; {why}, so "
                               f"the comment appears twice and the first copy swallows what follows it on the line", f.loc(), cfg)
     return rep
+
+
+def rule_strip_callers(ctx, prop):
+    """the other half of the strip contracts: a caller collects the comments from the node it hands over - before they are
+    stripped - and never from the stripped result"""
+    from paths import access_path, path_key
+    rep = Report(prop, "R-REPLACE(callers)", "every caller of a function that strips one side's comments reads those comments from "
+                                             "the node it passes in, not from the stripped result")
+    getter = {"trailing": re.compile(r"::(trailing_comments_search|trailing_comments|trailing_trivia|take_trailing_comments)$"),
+              "leading": re.compile(r"::(leading_comments_search|leading_comments|leading_trivia|take_leading_comments)$")}
+    for cfg, prog in ctx.programs.items():
+        n = 0
+        for path, (side, why) in STRIP_CONTRACT.items():
+            h = prog.fn("stylua_lib", path)
+            if h is None:
+                continue
+            node_idx = [i for i in range(1, h.argc + 1) if "full_moon::ast::" in h.locals[i] or "TokenReference" in h.locals[i]]
+            for g in prog.fns("stylua_lib"):
+                for b, t in g.calls():
+                    if callee(t) != path:
+                        continue
+                    n += 1
+                    keys = set()
+                    for i in node_idx:
+                        if i - 1 < len(t["args"]) and not is_const(t["args"][i - 1]):
+                            keys.add(path_key(access_path(g, t["args"][i - 1])))
+                    from_input = False
+                    from_result = None
+                    for b2, t2 in g.calls():
+                        if not getter[side].search(callee(t2)) or not t2["args"] or is_const(t2["args"][0]):
+                            continue
+                        k2 = path_key(access_path(g, t2["args"][0]))
+                        if k2 in keys:
+                            from_input = True
+                        # receiver derived from the stripped result?
+                        seen = set()
+                        work = [t2["args"][0]]
+                        while work:
+                            o = work.pop()
+                            for r in provenance(g, o, through=None):
+                                if r[0] == "call" and r[2] not in seen:
+                                    seen.add(r[2])
+                                    if r[2] == b:
+                                        from_result = t2
+                                    tt = g.blocks[r[2]]["term"]
+                                    if tt["args"] and re.search(r"to_owned$|clone$|update_(leading_|trailing_)?trivia$|deref$|as_ref$", r[1]):
+                                        work.append(tt["args"][0])
+                    ok = from_result is None
+                    rep.inst(f"{g.key} -> {path.split('::')[-1]}: {side} comments not read from the stripped result",
+                             {"read_from_input": from_input, "at": g.loc(t["sp"])}, cfg, ok=ok)
+                    if not ok:
+                        rep.violation(f"{g.key} comments-read-from-stripped-result {path.split('::')[-1]}",
+                                      f"{g.path} asks the result of {path} for its {side} comments ({callee(from_result).split('::')[-1]}), "
+                                      f"but {path} has just removed them ({why}): nothing is found, so the comments are neither on the "
+                                      f"node nor re-emitted - they disappear from the output", g.loc(from_result["sp"]), cfg)
+        rep.floor("call sites of strip-contract functions", n, 3, cfg)
+    return rep
